@@ -88,6 +88,7 @@ def schedules(situations, full):
     # no cancellation at all, but every clientbound write accepted in two portions
     for k in (1, 2, 7):
         add("split-writes", dict(base, ackAt=1, infoAt=3, lat=[20, 4, 2], locale="en_US"), wsplit=k)
+    out.extend(pipeline_schedules(full))
     # de-duplicate
     seen, uniq = set(), []
     for r in out:
@@ -96,6 +97,29 @@ def schedules(situations, full):
             seen.add(key)
             uniq.append(r)
     return uniq
+
+
+def pipeline_schedules(full):
+    """A pipelined client: the (plaintext) Encryption Response is cut at some offset and its rest arrives in one segment together with
+    the already encrypted Login Acknowledged and Client Information -- the switch to the encrypted stream falls inside a segment."""
+    n = 263  # length of the Encryption Response frame: 2-byte prefix, id, two 128-byte RSA blocks with 2-byte prefixes
+    cuts = range(1, n) if full else (1, 2, 3, 4, 131, 200, n - 1)
+    return [{"tag": "pipeline/EncryptionResponse/cut", "sched": {"auth": 0, "policy": "prompt", "ackAt": 1, "infoAt": 1, "lat": [0, 0, 0], "locale": "en_US"}, "pipeline": c}
+            for c in cuts]
+
+
+def run_pairs(scheds, wd, hx, seed, name="observed"):
+    """Runs schedules next to their references (hx conn-timed --pair) and lets TLC judge them (Trace_Frames). Returns (fails, observed, tlc result)."""
+    inp = os.path.join(wd, name + "_in.ndjson")
+    outp = os.path.join(wd, name + ".ndjson")
+    vlib.write_ndjson(inp, scheds)
+    vlib.run_bin(hx, ["conn-timed", "--pair", "--in", inp, "--out", outp, "--seed", str(seed), "--threads", "12"], timeout=1800)
+    observed = vlib.read_ndjson(outp)
+    tr = vlib.run_tlc("Trace_Frames", "Trace_Frames.cfg", wd, workers=1, timeout=1800, markers=("FAIL", "NOTCONSUMED"),
+                      env_extra={"TRACE": outp}, java_opts=["-Xss1g", "-Dtlc2.tool.queue.IStateQueue=StateDeque"])
+    if not tr.ok or tr.marked["NOTCONSUMED"] or tr.distinct != len(observed) + 1:
+        raise vlib.ToolError("trace validation did not consume all %d records (distinct=%d):\n%s" % (len(observed), tr.distinct, tr.output[-2000:]))
+    return tr.marked["FAIL"], observed, tr
 
 
 def run(prop, tier):
